@@ -1,6 +1,7 @@
 (* Proofs for property C03 over model/Input.v, model/Mouse.v and the parser model. *)
 From Coq Require Import ZifyBool.
 From Vx Require Import base.Prelude base.ListX model.ParserTypes gen.GenParser model.Parser
+  model.Vt500Spec proofs.ParserTable proofs.ParserConform
   model.Mouse model.Input proofs.ParserLife.
 
 (* ================= A. what the parser can deliver is well formed ================= *)
@@ -1447,3 +1448,205 @@ Proof.
   intros Hl. rewrite run_is_run_steps.
   exact (run_steps_spec dec b64 _ s (items_steps_ok _ (parse_segments_wf segs)) Hl).
 Qed.
+
+(* ================= F. SGR mouse reports over BYTES ================= *)
+Definition is_digit (d : Z) : bool := (48 <=? d) && (d <=? 57).
+Definition digits (ds : list Z) : bool := forallb is_digit ds.
+(* the number a digit string denotes *)
+Definition dval (ds : list Z) : Z := fold_left (fun a d => a * 10 + (d - 48)) ds 0.
+
+Lemma decode_all_ascii bs : forallb (fun b => (0 <=? b) && (b <? 128)) bs = true -> decode_all bs = bs.
+Proof.
+  unfold decode_all.
+  assert (H : forall n bs, forallb (fun b => (0 <=? b) && (b <? 128)) bs = true -> (length bs <= n)%nat ->
+              decode_fuel n bs = bs).
+  { induction n as [|n IH]; intros l Hl Hn.
+    - destruct l; [reflexivity|cbn in Hn; lia].
+    - destruct l as [|b t]; [reflexivity|]. cbn [forallb] in Hl. apply andb_prop in Hl as [Hb Ht].
+      cbn [decode_fuel decode1]. assert (E : (b <? 128) = true) by lia. rewrite E.
+      f_equal. apply IH; [exact Ht|cbn in Hn; lia]. }
+  intros Hb. apply H; [exact Hb|lia].
+Qed.
+
+(* a CSI parameter byte (digit or ;) in state csiParam: appended, nothing delivered *)
+Lemma step_param p d : st p = CsiParam -> (is_digit d || (d =? 59)) = true ->
+  Parser.step p d = (set_params (set_timer p false) (params p ++ [d]), [], true).
+Proof.
+  intros Hst Hd. rewrite step_is_spec_step. unfold spec_step. cbn [andb].
+  assert (Ha : spec_anywhere d = None).
+  { unfold spec_anywhere, eof_rune. unfold is_digit in Hd.
+    destruct (d =? -1) eqn:E1; [lia|]. destruct ((d =? 24) || (d =? 26)) eqn:E2; [lia|].
+    destruct (d =? 27) eqn:E3; [lia|]. reflexivity. }
+  rewrite Ha. change (st (set_timer p false)) with (st p). rewrite Hst.
+  assert (Ht : spec_trans CsiParam d = ([AParam], Some CsiParam)).
+  { unfold spec_trans, c0exec, in_range. unfold is_digit in Hd.
+    destruct ((0 <=? d) && (d <=? 23) || (d =? 25) || (28 <=? d) && (d <=? 31)) eqn:E1; [lia|].
+    destruct (d =? 127) eqn:E2; [lia|]. destruct ((48 <=? d) && (d <=? 59)) eqn:E3; [reflexivity|lia]. }
+  rewrite Ht. cbn. destruct p; cbn in *; subst; reflexivity.
+Qed.
+
+Lemma feed_params ds : forall p, st p = CsiParam ->
+  forallb (fun d => is_digit d || (d =? 59)) ds = true ->
+  ds <> [] ->
+  feed p ds = (set_params (set_timer p false) (params p ++ ds), [], true).
+Proof.
+  induction ds as [|d t IH]; intros p Hst Hds Hne; [congruence|].
+  cbn [forallb] in Hds. apply andb_prop in Hds as [Hd Ht].
+  cbn [feed]. rewrite (step_param p d Hst Hd).
+  destruct t as [|d2 t2].
+  - cbn [feed]. rewrite app_nil_r. reflexivity.
+  - rewrite IH; [|exact Hst|exact Ht|discriminate].
+    cbn [app]. f_equal. f_equal. destruct p; cbn. rewrite <- app_assoc. reflexivity.
+Qed.
+
+Lemma feed_app a : forall p b,
+  feed p (a ++ b) =
+  let '(p1, o1, go) := feed p a in
+  if go then let '(p2, o2, go2) := feed p1 b in (p2, o1 ++ o2, go2) else (p1, o1, false).
+Proof.
+  induction a as [|r t IH]; intros p b.
+  - cbn [app feed]. destruct (feed p b) as [[p2 o2] go2]. reflexivity.
+  - cbn [app feed]. destruct (Parser.step p r) as [[p1 o1] go] eqn:Es. destruct go; [|reflexivity].
+    rewrite IH. destruct (feed p1 t) as [[p2 o2] go2]. destruct go2; [|reflexivity].
+    destruct (feed p2 b) as [[p3 o3] go3]. rewrite app_assoc. reflexivity.
+Qed.
+
+Definition acc_val (v : Z) (ds : list Z) : Z := fold_left (fun a d => a * 10 + (d - 48)) ds v.
+
+Lemma acc_val_ge ds : forall v, 0 <= v -> digits ds = true -> v <= acc_val v ds.
+Proof.
+  induction ds as [|d t IH]; intros v Hv Hd; [cbn; lia|].
+  cbn [digits forallb] in Hd. apply andb_prop in Hd as [Hd Ht]. unfold is_digit in Hd.
+  cbn [acc_val fold_left]. specialize (IH (v * 10 + (d - 48)) ltac:(lia) Ht). unfold acc_val in IH. lia.
+Qed.
+
+(* csiDispatch's accumulation `ps = ps*10 + digit` over a digit string that fits in an int *)
+Lemma csi_params_digits ds : forall v rest cur acc, digits ds = true -> 0 <= v ->
+  acc_val v ds <= 9223372036854775807 ->
+  (match rest with [] => True | r :: _ => (r =? 59) = true end) ->
+  csi_params (ds ++ rest) v cur acc = csi_params rest (acc_val v ds) cur acc.
+Proof.
+  induction ds as [|d t IH]; intros v rest cur acc Hd Hv Hmax Hrest; [reflexivity|].
+  cbn [digits forallb] in Hd. apply andb_prop in Hd as [Hd Ht]. unfold is_digit in Hd.
+  cbn [app csi_params acc_val fold_left].
+  destruct (d =? 59) eqn:E1; [lia|]. destruct (d =? 58) eqn:E2; [lia|].
+  pose proof (acc_val_ge t (v * 10 + (d - 48)) ltac:(lia) Ht) as Hge.
+  cbn [acc_val fold_left] in Hmax. unfold acc_val in Hge.
+  rewrite (i64_id (v * 10)) by (unfold int64_ok; lia).
+  rewrite (i64_id (v * 10 + (d - 48))) by (unfold int64_ok; lia).
+  apply IH; try assumption; lia.
+Qed.
+
+Lemma dval_acc ds : dval ds = acc_val 0 ds.
+Proof. reflexivity. Qed.
+
+Definition fits (ds : list Z) : bool := digits ds && (dval ds <=? 9223372036854775807).
+
+Lemma csi_params_three d1 d2 d3 : fits d1 = true -> fits d2 = true -> fits d3 = true ->
+  csi_params (d1 ++ 59 :: d2 ++ 59 :: d3) 0 [] [] = [[dval d1]; [dval d2]; [dval d3]].
+Proof.
+  unfold fits. intros H1 H2 H3.
+  apply andb_prop in H1 as [D1 M1]. apply andb_prop in H2 as [D2 M2]. apply andb_prop in H3 as [D3 M3].
+  rewrite csi_params_digits; [|exact D1|lia|rewrite <- dval_acc; lia|reflexivity].
+  cbn [csi_params Z.eqb Pos.eqb]. change (59 =? 59) with true. cbn iota.
+  rewrite csi_params_digits; [|exact D2|lia|rewrite <- dval_acc; lia|reflexivity].
+  cbn [csi_params]. change (59 =? 59) with true. cbn iota.
+  rewrite <- (app_nil_r d3). rewrite csi_params_digits; [|exact D3|lia|rewrite <- dval_acc; lia|exact I].
+  cbn [csi_params app]. rewrite ?app_nil_r. reflexivity.
+Qed.
+
+Definition p_csi_lt : pst :=
+  {| st := CsiParam; exitf := None; inter := [60]; params := []; ignoreST := false;
+     oscData := []; apcData := []; dcs := dcs_empty; timer := false |}.
+
+Lemma feed_prefix : feed pinit [27; 91; 60] = (p_csi_lt, [], true).
+Proof. vm_compute. reflexivity. Qed.
+
+Lemma digits_param ds : digits ds = true -> forallb (fun d => is_digit d || (d =? 59)) ds = true.
+Proof.
+  unfold digits. rewrite !forallb_forall. intros H x Hx. rewrite (H x Hx). reflexivity.
+Qed.
+
+Lemma digits_ascii ds : digits ds = true -> forallb (fun b => (0 <=? b) && (b <? 128)) ds = true.
+Proof.
+  unfold digits. rewrite !forallb_forall. intros H x Hx. specialize (H x Hx). unfold is_digit in H. lia.
+Qed.
+
+(* the final byte of a CSI in state csiParam dispatches the sequence and returns to ground *)
+Lemma step_dispatch P fin : P <> [] -> fin = 77 \/ fin = 109 ->
+  Parser.step (set_params (set_timer p_csi_lt false) P) fin =
+  (set_st (set_params (set_timer p_csi_lt false) P) Ground, [ICsi [60] (csi_params P 0 [] []) fin], true).
+Proof.
+  intros HP Hfin. rewrite step_is_spec_step.
+  destruct P as [|x P']; [congruence|].
+  destruct Hfin as [-> | ->]; reflexivity.
+Qed.
+
+Lemma finish_ground P :
+  finish (set_st (set_params (set_timer p_csi_lt false) P) Ground) = [IEof].
+Proof. unfold finish. rewrite step_is_spec_step. reflexivity. Qed.
+
+(* an SGR mouse report as BYTES: ESC [ < digits ; digits ; digits M|m is delivered by the
+   parser as the one CSI whose parameters are the numbers the digit strings denote *)
+Theorem sgr_bytes_parse d1 d2 d3 fin : fits d1 = true -> fits d2 = true -> fits d3 = true ->
+  fin = 77 \/ fin = 109 ->
+  parse_bytes ([27; 91; 60] ++ d1 ++ 59 :: d2 ++ 59 :: d3 ++ [fin]) =
+  [ICsi [60] [[dval d1]; [dval d2]; [dval d3]] fin; IEof].
+Proof.
+  intros H1 H2 H3 Hfin.
+  assert (D1 : digits d1 = true) by (unfold fits in H1; apply andb_prop in H1 as [? _]; assumption).
+  assert (D2 : digits d2 = true) by (unfold fits in H2; apply andb_prop in H2 as [? _]; assumption).
+  assert (D3 : digits d3 = true) by (unfold fits in H3; apply andb_prop in H3 as [? _]; assumption).
+  set (P := d1 ++ 59 :: d2 ++ 59 :: d3).
+  assert (Hbytes : [27; 91; 60] ++ d1 ++ 59 :: d2 ++ 59 :: d3 ++ [fin] = [27; 91; 60] ++ P ++ [fin]).
+  { unfold P. rewrite <- !app_assoc. cbn [app]. rewrite <- !app_assoc. reflexivity. }
+  rewrite Hbytes. unfold parse_bytes.
+  assert (HPp : forallb (fun d => is_digit d || (d =? 59)) P = true).
+  { unfold P. rewrite forallb_app. rewrite (digits_param d1 D1). cbn [forallb andb].
+    change (is_digit 59 || (59 =? 59)) with true. cbn [andb].
+    rewrite forallb_app. rewrite (digits_param d2 D2). cbn [forallb andb].
+    change (is_digit 59 || (59 =? 59)) with true. cbn [andb]. apply digits_param; exact D3. }
+  assert (HPne : P <> []) by (unfold P; destruct d1; discriminate).
+  rewrite decode_all_ascii.
+  2:{ cbn [app forallb]. change ((0 <=? 27) && (27 <? 128)) with true. change ((0 <=? 91) && (91 <? 128)) with true.
+      change ((0 <=? 60) && (60 <? 128)) with true. cbn [andb]. rewrite forallb_app.
+      assert (HPa : forallb (fun b => (0 <=? b) && (b <? 128)) P = true).
+      { rewrite forallb_forall in HPp |- *. intros x Hx. specialize (HPp x Hx). unfold is_digit in HPp. lia. }
+      rewrite HPa. cbn [forallb andb]. destruct Hfin as [-> | ->]; reflexivity. }
+  unfold parse_runes. rewrite feed_app, feed_prefix.
+  rewrite feed_app, (feed_params P p_csi_lt eq_refl HPp HPne).
+  cbn [params p_csi_lt app feed]. rewrite (step_dispatch P fin HPne Hfin).
+  rewrite finish_ground. unfold P at 1. rewrite (csi_params_three d1 d2 d3 H1 H2 H3). reflexivity.
+Qed.
+
+(* ... and, composed with the input loop in any state: the bytes of an SGR report become
+   exactly one mouse event with the reported button, position, modifiers and type *)
+Theorem sgr_bytes_event dec b64 s b col row sh al ct mo rel d1 d2 d3 :
+  button_ok b = true -> int64_ok col = true -> int64_ok row = true ->
+  fits d1 = true -> fits d2 = true -> fits d3 = true ->
+  dval d1 = sgr_cb b sh al ct mo -> dval d2 = col + 1 -> dval d3 = row + 1 ->
+  live s ->
+  exists s' es,
+    run dec b64 s (parse_bytes ([27; 91; 60] ++ d1 ++ 59 :: d2 ++ 59 :: d3 ++ [sgr_final rel])) = Ok s' es /\
+    user_events es = [EMouse (sgr_mouse b col row sh al ct mo rel)].
+Proof.
+  intros Hb Hc Hr F1 F2 F3 E1 E2 E3 Hl.
+  assert (Hfin : sgr_final rel = 77 \/ sgr_final rel = 109) by (destruct rel; auto).
+  destruct (run_bytes dec b64 ([27; 91; 60] ++ d1 ++ 59 :: d2 ++ 59 :: d3 ++ [sgr_final rel]) s Hl)
+    as (s' & es & E & _ & Hu).
+  exists s', es. split; [exact E|]. rewrite Hu.
+  rewrite (sgr_bytes_parse d1 d2 d3 _ F1 F2 F3 Hfin), E1, E2, E3.
+  cbn [map spec_user].
+  change (ICsi [60] [[sgr_cb b sh al ct mo]; [col + 1]; [row + 1]] (sgr_final rel))
+    with (enc_report (RMouse b col row sh al ct mo rel)).
+  rewrite (spec_item_report dec (paste s) (req_cursor s) (RMouse b col row sh al ct mo rel)).
+  - reflexivity.
+  - cbn [report_ok]. rewrite Hb, Hc, Hr. reflexivity.
+Qed.
+
+(* non-vacuity: ESC [ < 20 ; 10 ; 5 M  is Shift+Ctrl+left press at column 9, row 4 *)
+Example sgr_bytes_example :
+  fits [50; 48] = true /\ fits [49; 48] = true /\ fits [53] = true /\
+  dval [50; 48] = sgr_cb 0 true false true false /\ dval [49; 48] = 9 + 1 /\ dval [53] = 4 + 1 /\
+  button_ok 0 = true.
+Proof. repeat split; reflexivity. Qed.
